@@ -124,6 +124,8 @@ class Comparer(object):
         self.guards = []
         self.visited_pre = set()
         self.ignore = ()
+        self.own_only = set()     # pre-existing objects reachable from `self` only
+        self.replaced = set()     # ... that one side replaced by a fresh object (contents compared there)
         self.extra_attrs = set()
         from . import run as _run
         self.footprint = _run.footprint()
@@ -349,6 +351,18 @@ class Comparer(object):
         pa, pb = a.oid < self.noid0, b.oid < self.noid0
         if pa or pb:
             if a.oid != b.oid:
+                # One side re-uses an object that existed before the call where the other side creates a new one.  If that
+                # object was owned by `self` alone (not reachable from any other argument: e.g. a pre-allocated work
+                # array), re-use vs re-allocation is not observable through the contract: compare the contents.
+                pre = a if pa else b
+                if (pa != pb) and pre.oid in self.own_only:
+                    ca, cb = getattr(a.cls, 'name', a.cls), getattr(b.cls, 'name', b.cls)
+                    if ca != cb:
+                        self.mismatch(name, 'class %s vs %s' % (ca, cb))
+                        return
+                    self.replaced.add(pre.oid)
+                    self.fields(name, self.A.heap[a.oid], self.B.heap[b.oid])
+                    return
                 self.mismatch(name, 'refers to different pre-existing objects')
             # fields of pre objects are compared in the heap pass
             return
@@ -388,7 +402,7 @@ class Comparer(object):
     def heap_pass(self):
         """Every pre-existing object and every pre-existing array storage (frame)."""
         for oid in range(1, self.noid0):
-            if oid not in self.A.heap or oid not in self.B.heap:
+            if oid not in self.A.heap or oid not in self.B.heap or oid in self.replaced:
                 continue
             nm = self.names.get(oid, 'heap#%d' % oid)
             self.fields(nm, self.A.heap[oid], self.B.heap[oid])
@@ -422,6 +436,40 @@ def _ext_calls(self):
 
 
 Comparer.ext_calls = _ext_calls
+
+
+def _reach(st, roots):
+    seen, todo = set(), list(roots)
+    ids = set()
+    while todo:
+        v = todo.pop()
+        if isinstance(v, SOpt):
+            v = v.val
+        if isinstance(v, SObj):
+            if v.oid in ids:
+                continue
+            ids.add(v.oid)
+            todo.extend(st.heap.get(v.oid, {}).values())
+        elif isinstance(v, (list, tuple)):
+            if id(v) in seen:
+                continue
+            seen.add(id(v))
+            todo.extend(v)
+        elif isinstance(v, dict):
+            if id(v) in seen:
+                continue
+            seen.add(id(v))
+            todo.extend(v.values())
+    return ids
+
+
+def _own_only(st, args):
+    """Objects of the pre-state reachable from `self` but from no other argument (and not `self` itself)."""
+    if 'self' not in args or not isinstance(args['self'], SObj):
+        return set()
+    mine = _reach(st, [args['self']]) - {args['self'].oid}
+    others = _reach(st, [v for k, v in args.items() if k != 'self'])
+    return mine - others
 
 
 def name_pre_state(st, args):
@@ -500,6 +548,7 @@ def run_path(prog, registry, contract, body_q, case_build, prefix, shared, modul
     res.inlined = set(ipA.inlined) | set(ipB.inlined)
     cmp = Comparer(stA, stB, ntok0, noid0, names)
     cmp.ignore = tuple((opts or {}).get('ignore', ()))
+    cmp.own_only = _own_only(stA, argsA)
     if outA.kind != outB.kind:
         cmp.mismatch('outcome', 'code %s%s, contract %s%s' % (
             outA.kind, ' ' + outA.value if outA.kind == 'raise' else 's',
